@@ -75,12 +75,15 @@ Definition enc_state (s : state) : val :=
                  (st_tokens s)) ].
 
 (* a case: (params tokens (op ...)) ; the model's answer: list of (code state) per op *)
+(* op tag 11: a transaction that requests a batch and fails afterwards (DeliverTx drops its cache branch): no
+   effect, code 1 *)
 Definition hub_run (c : val) : val :=
   let p := dec_params (vnth 0 c) in
   let tokens := map dec_token (vL (vnth 1 c)) in
-  let ops := map dec_op (vL (vnth 2 c)) in
-  VL (snd (fold_left (fun (acc : state * list val) o =>
+  VL (snd (fold_left (fun (acc : state * list val) ov =>
                         let (s, out) := acc in
-                        let (s', code) := step s o in
+                        if vI (vnth 0 ov) =? 11 then (s, out ++ [VL [VI 1; enc_state s]])
+                        else
+                        let (s', code) := step s (dec_op ov) in
                         (s', out ++ [VL [vNat code; enc_state s']]))
-                     ops (init_state p tokens, []))).
+                     (vL (vnth 2 c)) (init_state p tokens, []))).
